@@ -158,6 +158,14 @@ class Ctx:
     def replay_batch(self, witnesses):
         if not witnesses:
             return []
+        # one process per witness (so that state which the code under test keeps between calls cannot carry over from one
+        # replay to the next), as long as the number of witnesses allows it
+        mod = sys.modules.get('vf.checks.%s' % self.pid.lower())
+        if len(witnesses) > 1 and (len(witnesses) <= 48 or getattr(mod, 'REPLAY_ISOLATED', False)):
+            out = []
+            for w in witnesses:
+                out += self.replay_batch([w])
+            return out
         import tempfile
         fd, path = tempfile.mkstemp(prefix='verif-replay-', suffix='.json')
         with os.fdopen(fd, 'w') as f:
